@@ -165,4 +165,9 @@ class IlluminaExonCorrector:
         if not validate_exons(get_exons((exons[0][0], exons[-1][1]), corrected_introns)):
             logger.debug("old:", introns)
             logger.debug("new:", corrected_introns)
-        return get_exons((exons[0][0], exons[-1][1]), corrected_introns)
+        corrected_exons = get_exons((exons[0][0], exons[-1][1]), corrected_introns)
+        if not corrected_exons or corrected_exons[0][0] != exons[0][0] or corrected_exons[-1][1] != exons[-1][1]:
+            # an intron taken from the short reads reaches the end of the read (a terminal exon of a few bases):
+            # the correction would silently change where the read starts or ends
+            return exons
+        return corrected_exons
